@@ -26,6 +26,7 @@ from math import isqrt, lcm
 
 import numpy as np
 
+from ..exact import Pure, case_rng, describe, present_nd, present_obj
 from toqito.channel_ops import apply_channel, kraus_to_choi
 from toqito.channel_props import (choi_rank, is_completely_positive, is_extremal, is_herm_preserving, is_positive,
                                   is_quantum_channel, is_trace_preserving, is_unital, is_unitary)
@@ -41,7 +42,11 @@ RULE = ("Predicates: ground-truth maps with exact rational data — Stinespring 
         "is_unitary, is_quantum_channel, choi_rank, is_extremal in every documented form (flat / column / row / paired list, Choi matrix with dim where "
         "d_in != d_out). A predicate case is non-trivial when both spaces have dimension >= 2 and the Lean verdict is decided (yes/no with margin); "
         "distinct = hash of (predicate, form, kind, dims, seed-derived data). Constructors: every (constructor, dimension, parameter) point of the grids "
-        "below incl. end points and just-outside values; non-trivial = parameter strictly inside the range or dimension >= 3.")
+        "below incl. end points and just-outside values; non-trivial = parameter strictly inside the range or dimension >= 3. "
+        "Presentation: every ndarray handed to a toqito function (each operator of a Kraus list independently, Choi matrices, input operators X, also the "
+        "objects returned by the constructors when they are passed on) is a re-presentation of the same values determined by the case (C / Fortran / strided / "
+        "permuted-stride layout; zero imaginary part also as float64, integer values also as int64), so lists mix dtypes and layouts; after every call the "
+        "arguments are compared with a deep snapshot (arrays, list objects, elements).")
 ASSUMPTIONS = [
     "toqito receives the double rounding of the exact rational data handed to the Lean deciders (relative error 2^-53 per entry, far below rtol=1e-5/atol=1e-8); verdicts are compared only when the exact decider says yes (relation holds exactly / certified) or no (violated by >= 100*(atol+rtol*scale), or an explicit negative witness with that margin)",
     "is_unitary / is_extremal / choi_rank decide through floating-point ranks: generated maps of rank >= 2 have their non-zero Choi eigenvalues >= 1e-3 (weights >= 1/64 on orthogonal or generic operators); choi_rank is only asked on inputs whose double image is exact (integers, dyadic rationals)",
@@ -220,6 +225,17 @@ def call(fn, *a, **k):
         return (type(e).__name__, str(e)[:200])
 
 
+def pcall(ctx, prng, fn, *a, info=None, **k):
+    """call(fn, ...) on re-presentations of the ndarray arguments (nested lists element-wise), with the purity assertion"""
+    pa = present_obj(prng, tuple(a))
+    guard = Pure(*pa, **k)
+    res = call(fn, *pa, **k)
+    why = guard.modified()
+    if why:
+        ctx.violation(f"{fn.__name__}: caller's arguments were modified", {"function": fn.__name__, "modified": why, "presentation": describe(list(pa)), **(info or {})})
+    return res
+
+
 # ------------------------------------------------------------------------------------------------ exact unitaries / isometries
 
 PYTH = [(3, 4, 5), (5, 12, 13), (8, 15, 17), (4, 3, 5), (12, 5, 13)]
@@ -230,26 +246,31 @@ def cmul(x, y):
     return (x[0] * y[0] - x[1] * y[1], x[0] * y[1] + x[1] * y[0])
 
 
-def rational_unitary(rng, n, n_rot, dyadic=False) -> Q:
+def rational_unitary(rng, n, n_rot, dyadic=False, real=False) -> Q:
     """n x n unitary with entries in Q[i]: product of Givens rotations (Pythagorean cos/sin) and unit phases;
-    dyadic=True: signed permutation with phases in {1, i, -1, -i} (entries exactly representable)"""
+    dyadic=True: signed permutation with phases in {1, i, -1, -i} (entries exactly representable);
+    real=True: phases +-1 only (a real orthogonal matrix)"""
+    def phase(k):
+        ph = PHASES[int(rng.integers(k))]
+        return ((F1 if ph[0] + ph[1] >= 0 else -F1), F0) if real else ph
+
     if dyadic:
         U = Q.zeros(n, n)
         perm = rng.permutation(n)
         for i in range(n):
-            ph = PHASES[int(rng.integers(4))]
+            ph = phase(4)
             U.re[i, int(perm[i])], U.im[i, int(perm[i])] = ph
         return U
     U = [[(Fraction(int(i == j)), F0) for j in range(n)] for i in range(n)]
     for _ in range(n_rot):
         if n < 2:
-            ph = PHASES[int(rng.integers(len(PHASES)))]
+            ph = phase(len(PHASES))
             U = [[cmul(ph, U[0][0])]]
             continue
         p, q = (int(x) for x in rng.choice(n, size=2, replace=False))
         a, b, c = PYTH[int(rng.integers(len(PYTH)))]
         cs = (Fraction(a, c), F0)
-        ph = PHASES[int(rng.integers(len(PHASES)))]
+        ph = phase(len(PHASES))
         sn = cmul((Fraction(b, c), F0), ph)
         snc = (sn[0], -sn[1])
         rp = [(cmul(cs, U[p][j])[0] - cmul(snc, U[q][j])[0], cmul(cs, U[p][j])[1] - cmul(snc, U[q][j])[1]) for j in range(n)]
@@ -314,10 +335,10 @@ SQ_WEIGHTS = [[Fraction(9, 25), Fraction(16, 25)], [Fraction(25, 169), Fraction(
               [Fraction(1, 4), Fraction(9, 100), Fraction(16, 25), Fraction(1, 50)]]
 
 
-def distinct_unitaries(rng, d, m, dyadic):
+def distinct_unitaries(rng, d, m, dyadic, real_first=False):
     Us = []
     for _ in range(200):
-        U = rational_unitary(rng, d, int(rng.integers(d, 2 * d + 2)), dyadic)
+        U = rational_unitary(rng, d, int(rng.integers(d, 2 * d + 2)), dyadic, real=real_first and not Us)
         # pairwise non-proportional: |tr(U^dagger V)| < d  <=>  |tr|^2 < d^2
         ok = True
         for W in Us:
@@ -332,15 +353,17 @@ def distinct_unitaries(rng, d, m, dyadic):
     return None
 
 
-def gt_mixture_sq(rng, d, dyadic=False):
+def gt_mixture_sq(rng, d, dyadic=False, real_first=False):
+    """real_first: the first Kraus operator is real-valued (a real orthogonal matrix) and at least one other is not, so the list
+    mixes real and complex operators (and, after re-presentation, float64 / int64 and complex128 dtypes) with a real one in front"""
     ws = [w for w in SQ_WEIGHTS if not dyadic or all((x.denominator & (x.denominator - 1)) == 0 for x in w)]
     w = ws[int(rng.integers(len(ws)))]
     w = [x for x in w if x > Fraction(1, 60)]
     tot = sum(w)
     if tot != 1:
         return None
-    Us = distinct_unitaries(rng, d, len(w), dyadic)
-    if Us is None:
+    Us = distinct_unitaries(rng, d, len(w), dyadic, real_first)
+    if Us is None or (real_first and all(not np.any(U.im != 0) for U in Us)):
         return None
     roots = []
     for x in w:
@@ -349,7 +372,7 @@ def gt_mixture_sq(rng, d, dyadic=False):
             return None
         roots.append(Fraction(a, b))
     Ks = [U.scale(s) for U, s in zip(Us, roots)]
-    return GT("mixture-sq" + ("-dyadic" if dyadic else ""), d, d, Ks, Ks, L=hcat([vec(K) for K in Ks]), cp_list=True)
+    return GT("mixture-sq" + ("-dyadic" if dyadic else "") + ("-real-first" if real_first else ""), d, d, Ks, Ks, L=hcat([vec(K) for K in Ks]), cp_list=True)
 
 
 def gt_mixture_dyadic(rng, d):
@@ -420,7 +443,7 @@ def gt_signed(rng, di, do):
     return g
 
 
-def gt_random_int(rng, di, do, r, cp):
+def gt_random_int(rng, di, do, r, cp, mix=False):
     lim = 3
     def g():
         while True:
@@ -428,6 +451,11 @@ def gt_random_int(rng, di, do, r, cp):
             if np.any(a != 0):
                 return Q.of_int(a)
     As = [g() for _ in range(r)]
+    if mix:
+        # the first operator is real-valued next to complex ones (mixed real / complex lists and pairs)
+        while not np.any(As[0].re != 0):
+            As[0] = g()
+        As[0] = Q(As[0].re, As[0].im * 0)
     if cp:
         return GT("int-cp", di, do, As, As, L=hcat([vec(K) for K in As]), cp_list=True)
     Bs = [g() for _ in range(r)]
@@ -563,12 +591,19 @@ def check_pred(ctx, tally, g: GT, seed, form, fn, args, kwargs, verdict, theorem
         ctx.count(f"undecided/{name}")
         return
     ctx.case(desc, g.di >= 2 and g.do >= 2, f"{name}/{form}/{g.kind}/{'in=out' if g.di == g.do else 'in!=out'}/{verdict}")
-    res = call(fn, *args, **kwargs)
+    prng = case_rng("c06/pred", seed, name, form, g.kind, g.di, g.do, sorted(kwargs))
+    pargs = present_obj(prng, tuple(args))     # same values, another presentation (each array of a list independently)
+    guard = Pure(*pargs, **kwargs)
+    res = call(fn, *pargs, **kwargs)
     want = verdict == "yes"
     info = {"function": name, "form": form, "kind": g.kind, "di": g.di, "do": g.do, "case_seed": seed, "gen": g.gen, "args": desc,
-            "choi": g.J.json(), "impl": str(res)[:300], "model": verdict, "theorem": theorem, "n_ops": None if g.As is None else len(g.As)}
+            "choi": g.J.json(), "impl": str(res)[:300], "model": verdict, "theorem": theorem, "n_ops": None if g.As is None else len(g.As),
+            "presentation": describe(list(pargs))}
     if extra:
         info.update(extra)
+    why = guard.modified()
+    if why:
+        ctx.violation(f"{name}: caller's arguments were modified", dict(info, modified=why))
     if res[0] != "ok":
         fam = classify(info, res)
         msg = f"{name}[{form}] on a {g.kind} map {dims}: raises {res[0]} ({res[1][:80]}); the exact decider says {verdict}"
@@ -677,7 +712,12 @@ def check_map(ctx, tally, g: GT, seed, with_choi=True):
         if exact_float:
             desc = {"predicate": "choi_rank", "form": form, **g.desc(), "seed": seed}
             ctx.case(desc, di >= 2 and do >= 2, f"choi_rank/{form}/{g.kind}")
-            res = call(choi_rank, obj)
+            pobj = present_obj(case_rng("c06/choi_rank", seed, form, g.kind, di, do), obj)
+            guard = Pure(pobj)
+            res = call(choi_rank, pobj)
+            if guard.modified():
+                ctx.violation("choi_rank: caller's arguments were modified", {"function": "choi_rank", "form": form, "kind": g.kind, "case_seed": seed, "gen": g.gen,
+                                                                            "modified": guard.modified(), "presentation": describe(pobj)})
             if res[0] != "ok" or int(res[1]) != rep["rank"]:
                 ctx.violation(f"choi_rank[{form}] on a {g.kind} map {di}->{do}: {res}; exact rank over Q[i] is {rep['rank']}",
                               {"function": "choi_rank", "form": form, "kind": g.kind, "case_seed": seed, "gen": g.gen, "impl": str(res), "model": rep["rank"], "theorem": "choiRank_le_kraus (rank by exact elimination)"})
@@ -708,7 +748,7 @@ def _g2(rng, p):
 
 @gen("mixture-sq")
 def _g3(rng, p):
-    return gt_mixture_sq(rng, p["d"], p.get("dyadic", False))
+    return gt_mixture_sq(rng, p["d"], p.get("dyadic", False), p.get("real_first", False))
 
 
 @gen("mixture-dyadic")
@@ -728,7 +768,7 @@ def _g6(rng, p):
 
 @gen("int")
 def _g7(rng, p):
-    return gt_random_int(rng, p["di"], p["do"], p["r"], p["cp"])
+    return gt_random_int(rng, p["di"], p["do"], p["r"], p["cp"], p.get("mix", False))
 
 
 @gen("planted")
@@ -791,9 +831,12 @@ def cviol(ctx, what, con, params, **kw):
 
 def check_choi_constructor(ctx, tally, con, fn, op, fargs, largs, d, theorem, props):
     """Choi-form constructors: returned matrix, action, textbook properties"""
-    rng = np.random.default_rng(int(ctx.rng.integers(1 << 62)))
+    cseed = int(ctx.rng.integers(1 << 62))
+    rng = np.random.default_rng(cseed)
     Xq, Xf = gint_q(rng, d)
     params = {"con": con, **{k: str(v) for k, v in largs.items()}}
+    prng = case_rng("c06/choi_constructor", cseed, params)
+    pinfo = {"constructor": con, "args": params, "replay_kind": "constructor"}
     ctx.case({"constructor": con, **params}, props.get("nontrivial", True), f"constructor/{con}/d={d}")
     rep = ctx.lean().ask(op, {**{k: (fj(v) if isinstance(v, Fraction) else v) for k, v in largs.items()}, "X": Xq.json()})
     res = call(fn, *fargs)
@@ -808,7 +851,7 @@ def check_choi_constructor(ctx, tally, con, fn, op, fargs, largs, d, theorem, pr
     out_m = Q.from_json(rep["out"])
     if not out_m.eq(Q.from_json(rep["via_choi"])):
         return cviol(ctx, f"{con}: model: textbook action and action through the Choi matrix differ", con, params, theorem=theorem)
-    y = call(apply_channel, Xf, J)
+    y = pcall(ctx, prng, apply_channel, Xf, J, info=pinfo)
     scale = float(max(1, Xq.maxabs())) * d * max(1.0, float(Jm.maxabs()))
     if y[0] != "ok" or max_dev(y[1], out_m) > 1e-9 * scale:
         return cviol(ctx, f"{con}{fargs}: apply_channel on the returned Choi matrix differs from the textbook formula ({theorem})", con, params, impl=str(y)[:300], model=rep["out"], X=Xq.json(), theorem=theorem)
@@ -817,7 +860,7 @@ def check_choi_constructor(ctx, tally, con, fn, op, fargs, largs, d, theorem, pr
                           ("qc", is_quantum_channel, {}), ("positive", is_positive, {})):
         if pname not in props:
             continue
-        r = call(pf, J, **kw)
+        r = pcall(ctx, prng, pf, J, info=pinfo, **kw)
         if r[0] != "ok" or bool(r[1]) != props[pname]:
             cviol(ctx, f"{pf.__name__}({con}{fargs}) = {r}; by {props['why'].get(pname, theorem)} it is {props[pname]}", con, params, predicate=pf.__name__, impl=str(r), model=props[pname], theorem=props["why"].get(pname, theorem))
 
@@ -896,9 +939,12 @@ def sq_dev(ks, model_sq):
 
 
 def check_qubit_constructor(ctx, tally, con, fn, op, kwargs_f, largs, roots, theorem, expect_props):
-    rng = np.random.default_rng(int(ctx.rng.integers(1 << 62)))
+    cseed = int(ctx.rng.integers(1 << 62))
+    rng = np.random.default_rng(cseed)
     Xq, Xf = gint_q(rng, 2)
     params = {"con": con, **{k: str(v) for k, v in largs.items()}, "roots": bool(roots)}
+    prng = case_rng("c06/qubit_constructor", cseed, params)
+    pinfo = {"constructor": con, "args": params, "replay_kind": "constructor"}
     inside = all(0 < v < 1 for v in largs.values())
     ctx.case({"constructor": con, **params}, inside, f"constructor/{con}/{'exact-roots' if roots else 'squares'}")
     la = {k: fj(v) for k, v in largs.items()}
@@ -912,7 +958,7 @@ def check_qubit_constructor(ctx, tally, con, fn, op, kwargs_f, largs, roots, the
         if e != rep["reject"]:
             cviol(ctx, f"{con}({kwargs_f}): outside the documented range, expected {rep['reject']}, got {e}", con, params, impl=str(res)[:200], model=rep, theorem="guards (adGuard/pdGuard/bfGuard)")
         # also with an input matrix
-        res2 = call(fn, Xf, **kwargs_f)
+        res2 = pcall(ctx, prng, fn, Xf, info=pinfo, **kwargs_f)
         if err_enum(res2) != rep["reject"]:
             cviol(ctx, f"{con}(X, {kwargs_f}): expected {rep['reject']}, got {err_enum(res2)}", con, params, impl=str(res2)[:200], model=rep, theorem="guards")
         return
@@ -922,12 +968,12 @@ def check_qubit_constructor(ctx, tally, con, fn, op, kwargs_f, largs, roots, the
     d2 = sq_dev(ks, rep["sq"])
     if d2 > TOL:
         return cviol(ctx, f"{con}({kwargs_f}): squared Kraus entries differ from the closed form by {d2:g}", con, params, impl=str([np.asarray(k).tolist() for k in ks])[:400], model=rep["sq"], theorem=theorem)
-    y_direct = call(fn, Xf, **kwargs_f)
-    y_kraus = call(apply_channel, Xf, ks)
+    y_direct = pcall(ctx, prng, fn, Xf, info=pinfo, **kwargs_f)
+    y_kraus = pcall(ctx, prng, apply_channel, Xf, ks, info=pinfo)
     if y_direct[0] != "ok" or y_kraus[0] != "ok" or float(np.max(np.abs(np.asarray(y_direct[1]) - np.asarray(y_kraus[1])))) > 1e-9 * 12:
         return cviol(ctx, f"{con}({kwargs_f}): direct application and apply_channel on the returned Kraus list differ", con, params, impl=str((y_direct, y_kraus))[:400], X=Xq.json(), theorem=theorem)
-    Jk = call(kraus_to_choi, ks)
-    y_choi = call(apply_channel, Xf, Jk[1]) if Jk[0] == "ok" else Jk
+    Jk = pcall(ctx, prng, kraus_to_choi, ks, info=pinfo)
+    y_choi = pcall(ctx, prng, apply_channel, Xf, Jk[1], info=pinfo) if Jk[0] == "ok" else Jk
     if y_choi[0] != "ok" or float(np.max(np.abs(np.asarray(y_direct[1]) - np.asarray(y_choi[1])))) > 1e-9 * 12:
         return cviol(ctx, f"{con}({kwargs_f}): direct application and the Choi form of the returned Kraus list differ", con, params, impl=str((y_direct, y_choi))[:400], X=Xq.json(), theorem=theorem)
     if roots:
@@ -943,12 +989,12 @@ def check_qubit_constructor(ctx, tally, con, fn, op, kwargs_f, largs, roots, the
         g.gen = {"name": "constructor", "params": params}
         check_returned_kraus(ctx, tally, g, ks, con, params)
     # wrong input shape
-    bad = call(fn, np.eye(3), **kwargs_f)
+    bad = pcall(ctx, prng, fn, np.eye(3), info=pinfo, **kwargs_f)
     if err_enum(bad) != "InputShape":
         cviol(ctx, f"{con}(3x3 input): expected InputShape rejection, got {err_enum(bad)}", con, params, impl=str(bad)[:200], theorem="guards")
     for pname, pf in (("qc", is_quantum_channel), ("unital", is_unital)):
         if pname in expect_props:
-            r = call(pf, ks)
+            r = pcall(ctx, prng, pf, ks, info=pinfo)
             if r[0] != "ok" or bool(r[1]) != expect_props[pname]:
                 cviol(ctx, f"{pf.__name__}({con}({kwargs_f})) = {r}; by {expect_props['why'][pname]} it is {expect_props[pname]}", con, params, predicate=pf.__name__, impl=str(r), model=expect_props[pname], theorem=expect_props["why"][pname])
 
@@ -1013,8 +1059,11 @@ def check_pauli(ctx, tally, p, as_array, seed):
     n = len(p)
     params = {"con": "pauli_channel", "p": [str(x) for x in p], "as_array": as_array}
     rep = ctx.lean().ask("c06_pauli", {"p": [fj(x) for x in p]})
-    pf = np.array([float(x) for x in p]) if as_array else [float(x) for x in p]
-    res = call(pauli_channel, pf)
+    prng = case_rng("c06/pauli", seed, params)
+    pinfo = {"constructor": "pauli_channel", "args": params, "replay_kind": "constructor"}
+    # the probability vector keeps its float dtype (an integer argument means "number of qubits"); layout varies
+    pf = present_nd(prng, np.array([float(x) for x in p]), allow_dtype=False) if as_array else [float(x) for x in p]
+    res = pcall(ctx, None, pauli_channel, pf, info=pinfo)
     ok_model = "reject" not in rep
     ctx.case({"constructor": "pauli_channel", **params}, ok_model and sum(1 for x in p if x > 0) >= 2, f"constructor/pauli_channel/len={n}/{'ok' if ok_model else rep['reject']}")
     if not ok_model:
@@ -1035,7 +1084,8 @@ def check_pauli(ctx, tally, p, as_array, seed):
     Xq, Xf = gint_q(rng, d)
     rep2 = ctx.lean().ask("c06_pauli", {"p": [fj(x) for x in p], "X": Xq.json()})
     out_m = Q.from_json(rep2["out"])
-    full = call(pauli_channel, pf, True, Xf)
+    pXf = present_nd(prng, Xf)
+    full = pcall(ctx, None, pauli_channel, pf, True, pXf, info=pinfo)
     if full[0] != "ok" or not isinstance(full[1], tuple) or len(full[1]) != 3:
         return cviol(ctx, f"pauli_channel({pf}, True, X): {str(full)[:200]}", "pauli_channel", params, theorem="pauliChoi_eq")
     Phi2, out, ks = full[1]
@@ -1045,11 +1095,11 @@ def check_pauli(ctx, tally, p, as_array, seed):
         return cviol(ctx, f"pauli_channel({pf}): Kraus operators are not sqrt(p_j) * (Pauli string j in odometer order)", "pauli_channel", params, impl=str([np.asarray(k).tolist() for k in ks])[:400], model=rep["strings"], theorem="pauliString (odometer order)")
     sc = 12.0 * d
     devs = {"direct": max_dev(out, out_m)}
-    yk = call(apply_channel, Xf, [np.asarray(k) for k in ks])
-    yc = call(apply_channel, Xf, np.asarray(Phi))
+    yk = pcall(ctx, prng, apply_channel, Xf, [np.asarray(k) for k in ks], info=pinfo)
+    yc = pcall(ctx, prng, apply_channel, Xf, np.asarray(Phi), info=pinfo)
     devs["kraus"] = max_dev(yk[1], out_m) if yk[0] == "ok" else float("inf")
     devs["choi"] = max_dev(yc[1], out_m) if yc[0] == "ok" else float("inf")
-    two = call(pauli_channel, pf, False, Xf)
+    two = pcall(ctx, None, pauli_channel, pf, False, present_nd(prng, Xf), info=pinfo)
     devs["two"] = max_dev(two[1][1], out_m) if two[0] == "ok" and isinstance(two[1], tuple) and len(two[1]) == 2 else float("inf")
     if max(devs.values()) > 1e-9 * sc:
         return cviol(ctx, f"pauli_channel({pf}): Kraus / Choi / direct application disagree with sum_j p_j P_j X P_j^dagger: {devs}", "pauli_channel", params, X=Xq.json(), model=rep2["out"], theorem="mixed_unitary_tp_unital / pauliChoi_eq")
@@ -1059,7 +1109,7 @@ def check_pauli(ctx, tally, p, as_array, seed):
     for pf_, want, why in ((is_completely_positive, True, "cp_of_kraus"), (is_trace_preserving, True, "mixed_unitary_tp_unital"), (is_unital, True, "mixed_unitary_tp_unital"),
                            (is_quantum_channel, True, "mixed_unitary_tp_unital"), (is_herm_preserving, True, "cp_of_kraus")):
         check_pred(ctx, tally, g, seed, "choi", pf_, (Phi,), {}, "yes" if want else "no", why, {"constructor": "pauli_channel"})
-        r = call(pf_, np.asarray(Phi))
+        r = pcall(ctx, prng, pf_, np.asarray(Phi), info=pinfo)
         if r[0] != "ok" or bool(r[1]) != want:
             cviol(ctx, f"{pf_.__name__}(np.asarray(pauli_channel({pf}))) = {r}; by {why} it is {want}", "pauli_channel", params, predicate=pf_.__name__, impl=str(r), model=want, theorem=why)
 
@@ -1143,6 +1193,13 @@ def run(ctx, model_ok=True):
     run_choi_constructors(ctx, tally, quick)
     run_qubit_constructors(ctx, tally, quick)
     run_pauli(ctx, tally, quick)
+    # ---- lists that mix real-valued and complex operators, a real one in front (drawn last: the streams above are as before)
+    for _ in range(reps):
+        for d in (2, 3, 4):
+            run_map(ctx, tally, "mixture-sq", {"d": d, "real_first": True})
+            run_map(ctx, tally, "mixture-sq", {"d": d, "dyadic": True, "real_first": True})
+            run_map(ctx, tally, "int", {"di": d, "do": int(rng.integers(2, 5)), "r": int(rng.integers(2, 4)), "cp": True, "mix": True})
+            run_map(ctx, tally, "int", {"di": int(rng.integers(2, 5)), "do": d, "r": int(rng.integers(1, 4)), "cp": False, "mix": True})
     ctx.extra["tolerances"] = {"predicate verdicts": "exact deciders; compared only when decided with margin 100*(atol+rtol*scale)", "constructor entries": "0 where the closed form is exactly representable, else 1e-12",
                                "applied outputs": "1e-9*scale"}
     ctx.extra["defect_families"] = dict(tally.fam)
